@@ -6,6 +6,7 @@ import (
 	"time"
 
 	"github.com/karagenc/socket.io-go/internal/sync"
+	"github.com/karagenc/socket.io-go/internal/vhook"
 )
 
 type backoff struct {
@@ -41,6 +42,7 @@ func (b *backoff) duration() time.Duration {
 	b.numAttemptsMu.Lock()
 	ms := int64(b.min) * int64(math.Pow(float64(b.factor), float64(b.numAttempts)))
 	b.numAttempts++
+	vhook.Event("backoff.next", "b", b, "n", int(b.numAttempts))
 	b.numAttemptsMu.Unlock()
 
 	if b.jitter > 0 {
@@ -63,5 +65,6 @@ func (b *backoff) duration() time.Duration {
 func (b *backoff) reset() {
 	b.numAttemptsMu.Lock()
 	b.numAttempts = 0
+	vhook.Event("backoff.reset", "b", b)
 	b.numAttemptsMu.Unlock()
 }
